@@ -423,6 +423,56 @@ func (e *Env) missingTags(st *rm.State, rq gen.Request, o string) string {
 	return ""
 }
 
+// ReachesKind reports whether evaluation of typ#rel can reach a rewrite node of the given kind
+// (following computed usersets, tuple-to-usersets and direct userset restrictions).
+func ReachesKind(m *rm.Model, typ, rel string, kind rm.RewriteKind) bool {
+	type node struct{ t, r string }
+	seen := map[node]bool{}
+	stack := []node{{typ, rel}}
+	for len(stack) > 0 {
+		n := stack[len(stack)-1]
+		stack = stack[:len(stack)-1]
+		if seen[n] {
+			continue
+		}
+		seen[n] = true
+		r := m.Rel(n.t, n.r)
+		if r == nil {
+			continue
+		}
+		found := false
+		var walk func(rw *rm.Rewrite)
+		walk = func(rw *rm.Rewrite) {
+			if rw.Kind == kind {
+				found = true
+			}
+			switch rw.Kind {
+			case rm.Computed:
+				stack = append(stack, node{n.t, rw.Relation})
+			case rm.TTU:
+				if ts := m.Rel(n.t, rw.Tupleset); ts != nil {
+					for _, res := range ts.Restrictions {
+						stack = append(stack, node{res.Type, rw.Relation})
+					}
+				}
+			}
+			for _, c := range rw.Children {
+				walk(c)
+			}
+		}
+		walk(r.Rewrite)
+		if found {
+			return true
+		}
+		for _, res := range r.Restrictions {
+			if res.Relation != "" {
+				stack = append(stack, node{res.Type, res.Relation})
+			}
+		}
+	}
+	return false
+}
+
 // DirectUsersetAndComputedSameRelation: some relation reachable from typ#rel combines, in one
 // rewrite, a direct userset restriction T#x with a computed userset x on the same type T (two
 // different edges into the same node of the weighted graph).
@@ -492,6 +542,9 @@ func (e *Env) JudgeListUsers(who string, rq gen.Request, st *rm.State, got []str
 	if rel := e.Sc.Model.Rel(rm.ObjType(rq.Obj), rq.Rel); rel != nil {
 		sig += " rewrite=" + RewriteShape(rel.Rewrite)
 	}
+	if ReachesKind(e.Sc.Model, rm.ObjType(rq.Obj), rq.Rel, rm.Difference) {
+		sig += " reaches_exclusion"
+	}
 	sig += e.SigExtra
 	nUneval := len(st.Unevaluable(rq.Ctx))
 	if err != nil {
@@ -524,7 +577,11 @@ func (e *Env) JudgeListUsers(who string, rq gen.Request, st *rm.State, got []str
 		}
 		sup := st.CheckSuper(rq.Obj, rq.Rel, u, rq.Ctx)
 		if !sup.CanBeTrue {
-			e.Violate("user_not_permitted", sig+" entry="+subjKind(u), "%s: returned %s which does not hold the relation when checked individually (got %v)", desc, u, sorted(got))
+			s2 := sig + " entry=" + subjKind(u)
+			if e.Truncated && gen.HasKind(e.Sc.Model, rm.Difference) {
+				s2 += " deadline_truncated_with_exclusion"
+			}
+			e.Violate("user_not_permitted", s2, "%s: returned %s which does not hold the relation when checked individually (got %v)", desc, u, sorted(got))
 			return
 		}
 	}
